@@ -238,9 +238,12 @@ def run(ctx, chk):
         fill_ok = len(fills) == 1 and fills[0][1] == 'vec![0; Sub(segsize, %d)]' % hdr['size'] and seq.index(fills[0]) == len(typed)
         chk.ob('C04.T6', 'wipe:zero-fill-to-declared-size', fill_ok, info['where'], 'body fill: %s' % (fills[0][1][:120] if fills else None))
         chk.ob('C04.T6', 'wipe:creates-the-file-itself', any('create' in c for c in info['creates']), info['where'], 'file opened by %s' % info['creates'])
-    # ---- T4 odd start (C11 evaluated on odd values) and reader guard table (C03.G1)
-    from . import C11, C03
-    for mod, rules, tag in ((C11, ('C11.P1', 'C11.P2', 'C11.P3', 'C11.P4'), 'C04.T4'), (C03, ('C03.G1',), 'C04.T7')):
+    # ---- T4 odd start (C11 evaluated on odd values), reader guard table (C03.G1), and T8: the probe
+    # (= the open decision list, C16.V1-V3) rejects a file only for the documented reasons -- any
+    # extra reason would make a restarted daemon wipe a segment its predecessor left valid
+    from . import C11, C03, C16
+    for mod, rules, tag in ((C11, ('C11.P1', 'C11.P2', 'C11.P3', 'C11.P4'), 'C04.T4'), (C03, ('C03.G1',), 'C04.T7'),
+                            (C16, ('C16.V1', 'C16.V2', 'C16.V3'), 'C04.T8')):
         sub = type(chk)('C04', LEVEL, chk.tier)
         mod.run(ctx, sub)
         for o in sub.obs:
